@@ -22,9 +22,31 @@ MODES_A_3 = [NOQ, M("SRQ", "a8a", "w8c"), M("SRQ", "a16", "w8c")]
 IO_2 = [NOQ, M("SRQ", "a8a", "w8c")]
 
 
-def cfg(max_ops, kinds, modes_w, modes_a, io, share="tensor", max_sub=1, max_ins=1, fixes=None):
-  return dict(MaxOps=str(max_ops), MaxSub=str(max_sub), MaxIns=str(max_ins), Kinds=K(kinds), ModesW=S(modes_w),
-              ModesA=S(modes_a), IOModes=S(io), Share='"%s"' % share, Fixes=K(FIXES_NOW if fixes is None else fixes))
+WEIGHT_KINDS = ("FC", "TCONV", "BMM", "EMB")
+
+
+def km_generic(kinds, modes_w, modes_a):
+  """[kind -> modes]: weight-bearing kinds take modes_w (EMBEDDING_LOOKUP has no static-range mode, BATCH_MATMUL no
+  float16 casting), UNSUP only no-quantize, the rest modes_a."""
+  km = {}
+  for k in kinds:
+    if k == "UNSUP":
+      km[k] = [NOQ]
+    elif k in WEIGHT_KINDS:
+      km[k] = [m for m in modes_w if not (k == "EMB" and '"SRQ"' in m) and not (k == "BMM" and '"F16"' in m)]
+    else:
+      km[k] = list(modes_a)
+  return km
+
+
+def km_expr(km):
+  return "(" + " @@ ".join('"%s" :> %s' % (k, S(v)) for k, v in km.items()) + ")"
+
+
+def cfg(max_ops, kinds, modes_w, modes_a, io, share="tensor", max_sub=1, max_ins=1, fixes=None, km=None):
+  km = km or km_generic(kinds, modes_w, modes_a)
+  return dict(MaxOps=str(max_ops), MaxSub=str(max_sub), MaxIns=str(max_ins), Kinds=K(kinds), KM=km_expr(km),
+              IOModes=S(io), Share='"%s"' % share, Fixes=K(FIXES_NOW if fixes is None else fixes))
 
 
 def quick_configs():
